@@ -275,10 +275,10 @@ class C18con(vlib.HistoryProp):
     def canon_model(self, lines):
         m = [l[2:] for l in lines if l.startswith("m ")]
         s = [l[2:] for l in lines if l.startswith("s ")]
-        safe = "safe 1" in lines
-        # the theorem: on a history that avoids the defective operations the model shows what
-        # the specification shows (capacity is not part of the specification)
-        ok = (not safe) or [self.CAP.sub("", l) for l in m] == s
+        # the theorem: on a history that avoids the defective operations ("safe 1") the model shows
+        # what the specification shows (capacity is not part of the specification).  Histories with
+        # a defective operation are generated only on request; there the difference is the finding.
+        ok = [self.CAP.sub("", l) for l in m] == s
         return m, [], ok
 
     SLOT = re.compile(r" s\d+=\[([^\]]*)\]")
@@ -309,6 +309,8 @@ class C18con(vlib.HistoryProp):
             k = v.get("at")
         else:
             k = int(mo.group(1)) if mo else None
+        if k is None and case.ops:
+            k = len(case.ops) - 1                  # a shrunk history ends at the offending operation
         opc = case.ops[k].split()[0] if k is not None and k < len(case.ops) else "?"
         return "C18con:%s:%s" % (v["kind"], opc)
 
